@@ -157,7 +157,20 @@ CHECKS = [
              "exactly at every threshold, through both entry points.",
      "note": "monthly coverage, negative values, no-data and the day counting itself (pandas group-bys, day_counts) are outside the symbolic part and "
              "are decided by the bounded part only; known finding C10-offcycle-disqualifies",
-     "not_covered": ["hourly data class verdicts (HourlySufficiencyCriteria) beyond the call-set tables", "billing period day counting"],
+     "not_covered": ["hourly monthly-coverage verdicts are decided by the bounded part only", "billing period day counting"],
+     },
+    {"id": "C17", "level": "proof", "modules": ["contracts.C17_prepare"], "bounded": ["flow.C17_frame", "bounded.C17_keep"],
+     "technique": "deductive verification of interpolate() on a row-wise model (pyvc, one arbitrary row of an arbitrary frame, z3) + AST frame obligation on _interpolate_col + bounded cell-by-cell comparison through the real hourly data classes",
+     "text": "Proof: for one arbitrary row of an arbitrary frame and every branch of the lag selection, interpolate() keeps every cell that was "
+             "present on entry, sets interpolated_<col> exactly when the cell was missing on entry and is present on exit, leaves no cell missing "
+             "in a column that has a present cell, writes no other column and returns the frame it was given. _interpolate_col enters through "
+             "its frame contract (changes only missing cells), which a flow obligation discharges on the real AST. Bounded (labelled so): real "
+             "HourlyBaselineData / HourlyReportingData on 4-40 day frames with NaN cells, absent rows, duplicated rows, zeros, with and without "
+             "irradiance, electric and gas, several zones including DST weeks: cell-by-cell comparison with the input, whole-local-day gap-free "
+             "index, flag exactness, totality.",
+     "note": "Series.interpolate / ffill / bfill enter as assumed pandas contracts; remove_duplicates, the zero -> NaN step and the contiguous "
+             "index of _set_data are decided end to end by the bounded part only",
+     "not_covered": ["frames longer than the bounded part's spans for the data-class skeleton", "the numeric quality of filled values (not part of the property)"],
      },
 ]
 _NOT_BUILT = "machinery for this property is not built yet (see DESIGN.md §7 build order); not claimed"
